@@ -16,7 +16,22 @@ Definition snap_in_range (s : snap) : bool :=
 Definition all_in_range (o : list (res * list snap)) : bool :=
   forallb (fun x => match fst x with RVal z => in_i64 z | _ => true end && forallb snap_in_range (snd x)) o.
 
+(* volume cases: New(vlist n a0...) then Fold under vmon and Length, on the transcriptions of both traits *)
+Definition vol_model (I : impl) (n : nat) (a0 : Z) : option Z * Z :=
+  let r := inew I (ih0 I) (vlist n a0) 0 in
+  (fold I (S (S (S n))) vmon (fst r) (snd r), ilength I (fst r) (snd r)).
+Definition vol_agrees (v : list Z) : bool :=
+  match v with
+  | [] => true
+  | [n; a0; fl; fs; ll; ls] =>
+      match vol_model list_impl (Z.to_nat n) a0, vol_model (slice_impl (fun _ _ => O)) (Z.to_nat n) a0 with
+      | (Some f1, l1), (Some f2, l2) => (f1 =? fl) && (l1 =? ll) && (f2 =? fs) && (l2 =? ls)
+      | _, _ => false
+      end
+  | _ => false
+  end.
+
 Definition agrees (c : case) : bool :=
-  obs_eqb (obs_list c) (model_list c) && obs_eqb (obs_slice c) (model_slice c) && all_in_range (required c).
+  obs_eqb (obs_list c) (model_list c) && obs_eqb (obs_slice c) (model_slice c) && all_in_range (required c) && vol_agrees (vol c).
 
 Definition mismatches (cs : list case) : list N := idx_where (fun c => negb (agrees c)) 0%N cs.
